@@ -550,6 +550,11 @@ def analyze(ctx, want):
                 continue
             n_skip += 1
             cont = [(c, o) for c, o in p.conds if c[0] == "app" and re.search(r"<impl \[.*\]>::contains$|Vec::<.*>::contains$", str(c[1])) and "transitions" in S.fstr(c[2][0])]
+            # (`list.contains(&pair)` or `list.iter().any(|t| *t == pair)`: the last decision says the pair is in the state's list)
+            anyeq = [(c, o) for c, o in p.conds if c[0] == "binop" and c[1] == "Eq" and ((c[2][0] == "sym" and str(c[2][1]).startswith("item@") and c[3][0] == "tuple") or (c[3][0] == "sym" and str(c[3][1]).startswith("item@") and c[2][0] == "tuple"))]
+            walked = any(e[0] in ("iter-item", "call") and "transitions" in S.fstr(e[3] if e[0] == "iter-item" else (e[3][0] if e[3] else ("unit",))) and "dfa.states" in S.fstr(e[3] if e[0] == "iter-item" else (e[3][0] if e[3] else ("unit",))) for e in p.events)
+            if anyeq and anyeq[-1][1] is True and walked and not cont:
+                continue
             if not (cont and cont[-1][1] is True and re.search(r"dfa\.states", S.fstr(cont[-1][0][2][0]))):
                 bad_u.append("a merged transition is not installed under %s" % [(S.fstr(c)[:70], o) for c, o in p.conds if "Trace" not in S.fstr(c) and "max_level" not in S.fstr(c)][-2:])
         if n_push or n_skip:
